@@ -219,6 +219,17 @@ pub struct TaskSetSwarm {
 }
 
 impl TaskSetSwarm {
+    /// `wide`: a quarter of the configurations uses larger task sets and parameters
+    pub fn random_wide(rng: &mut Rng, wide: bool) -> TaskSetSwarm {
+        let mut sw = TaskSetSwarm::random(rng);
+        if wide && rng.chance(1, 4) {
+            sw.n_tasks = rng.range(5, 9) as usize;
+            sw.max_period = *rng.pick(&[60u64, 120, 200]);
+            sw.max_wcet = *rng.pick(&[10u64, 20]);
+        }
+        sw
+    }
+
     pub fn random(rng: &mut Rng) -> TaskSetSwarm {
         let n_tasks = 1 + rng.weighted(&[4, 20, 30, 25, 12, 9]);
         let util_pct = match rng.below(10) {
